@@ -456,10 +456,20 @@ func runC14Concurrent(c *harness.Case) {
 	defer eng.Close()
 	w := harness.NewWrap(eng.KV)
 	seed := r.Int63()
+	var innerSeq int64
 	w.BeforeCommit = func(b *harness.BatchInfo) {
 		x := uint64(seed) ^ uint64(b.Seq)*0x9e3779b97f4a7c15
 		x ^= x >> 29
 		time.Sleep(time.Duration(x%150) * time.Microsecond)
+	}
+	if kind != "memkv" {
+		// engines whose open batch holds no lock: a candidate may be descheduled between handing its compare to the
+		// engine's batch and committing it
+		w.BeforeInnerCommit = func(ops []harness.BatchOp) {
+			x := uint64(seed)*7 ^ uint64(atomic.AddInt64(&innerSeq, 1))*0x9e3779b97f4a7c15
+			x ^= x >> 29
+			time.Sleep(time.Duration(x%200) * time.Microsecond)
+		}
 	}
 	nCand := 2 + r.Intn(2)
 	cs, _, _ := newCandidates(w, nCand, false)
